@@ -110,4 +110,45 @@ class C12(Spec):
         return genops.gen_add(rng, tier)
 
 
-PROPS = {"C01": C01(), "C04": C04(), "C05": C05(), "C12": C12()}
+class ArrayProp(Spec):
+    codecs = None
+    keys = None
+
+    def gen(self, rng, tier):
+        return genops.gen_arrays(rng, tier, self.codecs)
+
+    def relevant_keys(self, op):
+        return self.keys
+
+
+class C02(ArrayProp):
+    lean_modules = ["Varint.Props.C02"]
+    keys = ["len", "b", "z", "back"]
+    rule = ("arrays of lengths straddling 1/2, 127/128/129, 240/241, 255/256/257, 2287/2288, 4095/4096/4097 (thorough: "
+            "10000, 65536) x seven shapes x value ranges at every byte- and bit-width boundary, every codec and PFOR "
+            "threshold; decode from an exact-size copy, every random-access reader; distinct = distinct result lines")
+
+
+class C03(ArrayProp):
+    lean_modules = ["Varint.Props.C03"]
+    keys = ["len", "adv", "sz"]
+    rule = ("same arrays as C02; destination of exactly the advertised size followed by a canary; returned length vs "
+            "advertised size; exactness where documented")
+
+
+class C13(ArrayProp):
+    lean_modules = ["Varint.Props.C13"]
+    keys = ["len", "b"]
+    rule = ("every valid encoding of the C02 stream decoded with capacities 0, 1, n/2, n-1, 128, 129, n into an output "
+            "block of exactly that many elements followed by guard elements")
+
+
+class C16(ArrayProp):
+    lean_modules = ["Varint.Props.C16"]
+    diff_is_violation = True
+    keys = ["m", "h", "gs", "fc", "gc", "grc", "len", "adv"]
+    rule = ("metadata outputs and header accessors of every codec compared with ground truth recomputed by the harness "
+            "and with the model; lengths around 240/241 and multiples of 128 +- 1")
+
+
+PROPS = {"C02": C02(), "C03": C03(), "C13": C13(), "C16": C16(), "C01": C01(), "C04": C04(), "C05": C05(), "C12": C12()}
